@@ -1,4 +1,5 @@
 pub mod common;
+pub mod large;
 pub mod c01;
 pub mod cap;
 pub mod text;
